@@ -318,7 +318,7 @@ class Gen:
         if rng.random() < 0.1 and self.kind != "oracle":
             lines.insert(rng.randint(1, len(lines)), b"   ")  # indented blank line inside the block (ninja ends the block there)
             self.features.add("blank-line-in-block")
-        frame.rules[name] = dict(refs=refs, rsp=rsp)
+        frame.rules[name] = dict(refs=refs, rsp=rsp, deps_gcc=any(l.strip() == b"deps = gcc" for l in lines))
         out.append(b"\n".join(lines))
         self.features.add("rule")
 
@@ -400,6 +400,16 @@ class Gen:
                     lines.append(b"  pool = " + rng.choice(self.pools)); bl.add(b"pool")
                 else:
                     lines.append(b"  generator = 1"); bl.add(b"generator")
+        # the reset idiom of the Ninja manual: a build-level binding whose value is (or evaluates to) the EMPTY string still
+        # shadows the rule-level and file-level values of that name
+        if info and rng.random() < 0.3:
+            cands = sorted(n for n in info["refs"] if n != b"rspf") + [b"description", b"pool", b"rspfile", b"rspfile_content", b"deps", b"generator"]
+            if not info.get("deps_gcc"):
+                cands.append(b"depfile")
+            for n in rng.sample(cands, min(len(cands), rng.randint(1, 3))):
+                v = rng.choice([b"", b"", b"$undefined_zz", b"${empty_zz}", b"$undefined_zz${empty_zz}", b"$\n      "])
+                lines.append(b"  " + n + rng.choice([b" = ", b" =", b"="]) + v); bl.add(n)
+            self.features.add("empty-build-level-binding")
         # the one place where llbuild knowingly differs from ninja (known finding): a path of the statement uses a
         # variable that the statement's own block binds
         if rng.random() < 0.015 and self.kind == "oracle":
